@@ -115,7 +115,8 @@ def to_list(x):
 
 # ---- layout-perturbing renderer -------------------------------------------------------------
 SEPS = [" ", "\n", "\t", "  ", "\r\n", " \t ", "\n\n", " ; a comment (with parens) ; and more\n",
-        "\n;; full line comment\n", "\n\t; (and (not x))\n\t", " ;\n"]
+        "\n;; full line comment\n", "\n\t; (and (not x))\n\t", " ;\n",
+        ";glued to the token before (it) ;twice\n", ";\n"]
 OPTIONAL_GAP = ["", " ", "\n", "\t", " ;c\n"]
 
 
